@@ -53,6 +53,7 @@ type setCase struct {
 	Files []file
 	Perm  []int // order in which the names are listed
 	Chunk int   // >0: contents are delivered in reads of at most this many bytes
+	Poison int  // >0: first make a hash call fail: its first file's reader returns an error after Poison-1 bytes
 }
 
 func formula(files []file) string {
@@ -91,6 +92,22 @@ func (r *chunkReader) Read(p []byte) (int, error) {
 	}
 	copy(p, r.b[:n])
 	r.b = r.b[n:]
+	return n, nil
+}
+
+// failingReader delivers failAt bytes and then a non-EOF error.
+type failingReader struct {
+	data   []byte
+	failAt int
+	pos    int
+}
+
+func (r *failingReader) Read(p []byte) (int, error) {
+	if r.pos >= r.failAt || r.pos >= len(r.data) {
+		return 0, fmt.Errorf("injected read error")
+	}
+	n := copy(p, r.data[r.pos:min(r.failAt, len(r.data))])
+	r.pos += n
 	return n, nil
 }
 
@@ -189,7 +206,11 @@ func genSet(t *rapid.T) setCase {
 	if rapid.IntRange(0, 2).Draw(t, "chunked") == 0 {
 		chunk = []int{1, 2, 7, 31, 32, 33, 100}[rapid.IntRange(0, 6).Draw(t, "chunk")]
 	}
-	return setCase{fs, rapid.Permutation(idx).Draw(t, "perm"), chunk}
+	poison := 0
+	if rapid.IntRange(0, 4).Draw(t, "poison") == 0 {
+		poison = 1 + rapid.IntRange(0, 40).Draw(t, "poisonat")
+	}
+	return setCase{fs, rapid.Permutation(idx).Draw(t, "perm"), chunk, poison}
 }
 
 func validPerm(p []int, n int) bool {
@@ -240,9 +261,20 @@ func checkSet(c setCase) pbt.Result {
 		}
 	}
 	keep := append([]string(nil), listed...)
-	if c.Chunk < 0 {
+	if c.Chunk < 0 || c.Poison < 0 {
 		r.Skip = true
 		return r
+	}
+	if c.Poison > 0 {
+		// an earlier hash call in the same process that fails half-way must not influence later calls
+		r.Classes = append(r.Classes, "after a failed hash call")
+		_, perr := dirhash.Hash1([]string{"poisoned", "zz"}, func(name string) (io.ReadCloser, error) {
+			return io.NopCloser(&failingReader{data: bytes.Repeat([]byte("stale bytes "), 8), failAt: c.Poison - 1}), nil
+		})
+		if perr == nil {
+			r.Fail = pbt.Failf("read-error-swallowed", "Hash1 succeeded although a file's reader returned an error after %d bytes", c.Poison-1)
+			return r
+		}
 	}
 	got, err := dirhash.Hash1(listed, chunkOpener(c.Files, c.Chunk))
 	if c.Chunk > 0 {
